@@ -76,7 +76,32 @@ const CYCLE_SHAPES: &[&str] = &[
 
 // ------------------------------------------------------------------------------------------ interner
 
-const CONTENTS: &[&[u8]] = &[b"", b"a", b"ab", "é".as_bytes(), &[0xff, 0xfe, 0x00], &[b'x'; 300], b"std", b"self"];
+/// `N` bytes `fill` with a different last byte: long contents that agree in length and in every byte but the last
+const fn long_content<const N: usize>(fill: u8, last: u8) -> [u8; N] {
+	let mut a = [fill; N];
+	a[N - 1] = last;
+	a
+}
+const LONG_A: [u8; 2000] = long_content(b'q', b'1');
+const LONG_B: [u8; 2000] = long_content(b'q', b'2');
+const LONG_C: [u8; 70_000] = long_content(b'w', b'3');
+const CONTENTS: &[&[u8]] = &[
+	b"",
+	b"a",
+	b"ab",
+	"é".as_bytes(),
+	&[0xff, 0xfe, 0x00],
+	&[b'x'; 300],
+	b"std",
+	b"self",
+	// lengths around and beyond the sizes at which a hashing or storage strategy could change
+	&[b'y'; 1023],
+	&[b'y'; 1024],
+	&[b'y'; 1025],
+	&LONG_A,
+	&LONG_B,
+	&LONG_C,
+];
 
 #[derive(Clone, Copy, Debug)]
 enum Op {
@@ -329,7 +354,7 @@ fn cli_gc_case(code: &str) -> CaseOut {
 }
 
 pub fn run(run: &Run) {
-	run.set_rule("collector: generated programs (values, errors, stack-limit hits) and 20 cycle-heavy shapes (self-referential objects, mutually recursive locals, recursive closures in arrays, cached object-local contexts, $ references, inheritance with super) are evaluated three times on one thread with the state dropped and a cycle collection after each: the number of tracked objects must not grow from the 2nd to the 3rd repetition (and the executable with --gc-collect-on-exit reports `Tracked: 0`). interner: operation sequences (intern str/bytes over an 8-string alphabet incl. empty, non-ASCII, invalid UTF-8 and 300 bytes; clone, drop, cast bytes<->str, compare, hand the pool over to another OS thread) against a model of the live handles: contents preserved, equality <=> equal contents <=> same storage, cast_str succeeds <=> valid UTF-8, pool size == baseline + number of distinct live contents after every step, back to the baseline at the end. Non-trivial: cyclic program / sequence with re-interning, casts both ways or a hand-over.");
+	run.set_rule("collector: generated programs (values, errors, stack-limit hits) and 20 cycle-heavy shapes (self-referential objects, mutually recursive locals, recursive closures in arrays, cached object-local contexts, $ references, inheritance with super) are evaluated three times on one thread with the state dropped and a cycle collection after each: the number of tracked objects must not grow from the 2nd to the 3rd repetition (and the executable with --gc-collect-on-exit reports `Tracked: 0`). interner: operation sequences (intern str/bytes over a 14-string alphabet incl. empty, non-ASCII, invalid UTF-8, 300, 1023, 1024, 1025 bytes, two 2000-byte contents that differ in the last byte only, and 70 000 bytes; clone, drop, cast bytes<->str, compare, hand the pool over to another OS thread) against a model of the live handles: contents preserved, equality <=> equal contents <=> same storage, cast_str succeeds <=> valid UTF-8, pool size == baseline + number of distinct live contents after every step, back to the baseline at the end. Non-trivial: cyclic program / sequence with re-interning, casts both ways or a hand-over.");
 	run.assume("hook jrsonnet_interner::verif_pool_len (cfg jrsonnet_verif) reads the size of the thread's pool");
 	let opts = Opts::default();
 	run.enumerate("collector-cycle-shapes", CYCLE_SHAPES.len() as u64, |i| collector_case(CYCLE_SHAPES[i as usize], &opts, true));
